@@ -138,7 +138,7 @@ add("C39", "c_misc",
     note="Server offset_date semantics of getHistory are not exercised.")
 add("C40", "c_misc",
     [T("TestC40", 50000, 500000), T("TestC40Arbitrary", 50000, 500000), T("TestC40FloodWait", 20000, 200000, env=BUBBLE), T("TestC40Client", 20000, 200000, env=BUBBLE)],
-    rule="1..5 words [A-Z0-9]*[A-Z][A-Z0-9]* joined by _ with one numeric argument in [0,2^31) at any position (with/without leading zeros), flood/premium/near-miss types forced; arbitrary strings; FloodWait on virtual time with cancel/deadline around the wait; uploader/downloader loops against a fake RPC answering FLOOD_WAIT_n. non-trivial = argument not last or a word containing a digit / a flood error; distinct by message",
+    rule="1..5 words [A-Z0-9]*[A-Z][A-Z0-9]* joined by _ with one numeric argument in [0,2^31) at any position (with/without leading zeros), flood/premium/near-miss types forced, each message parsed 1..3 times with the caller editing the earlier *Error in between; arbitrary strings; FloodWait on virtual time with cancel/deadline around the wait; uploader/downloader loops against a fake RPC answering FLOOD_WAIT_n. non-trivial = argument not last or a word containing a digit / a flood error; distinct by message",
     technique="PBT (rapid) with a constructive oracle (the generator knows type and argument) + virtual-time checks (testing/synctest)",
     text="Type = words joined, Argument = number; AsFloodWait exactly for the two flood types; FloodWait returns true only after arg seconds plus the margin, ctx error at the instant the context ends; retry loops resume no earlier.",
     note="")
@@ -167,7 +167,7 @@ add("C17", "c_transport",
     note="Allocation is measured with runtime/metrics and re-measured with ReadMemStats before a breach counts.")
 add("C18", "c_transport",
     [T("TestC18", 15000, 150000), T("TestC18Listener", 8000, 80000)],
-    rule="tag in {ef,ee,dd x4, random}, dc over int16 incl. +-10000+n, secret in {16 bytes, empty, nil}, random streams incl. draws hitting every reserved prefix, 0..10 writes per direction of 0..64 KiB with drawn read chunkings. non-trivial = data in both directions and a read boundary inside a write; distinct by parameters",
+    rule="tag in {ef,ee,dd x4, random}, dc over int16 incl. +-10000+n, secret in {16 bytes, empty, nil}, random streams incl. draws hitting every reserved prefix, 0..10 writes per direction of 0..64 KiB with drawn read chunkings; in half of the cases a neighbour obfuscated2 connection writes inside every transport write of the connection under test. non-trivial = data in both directions and a read boundary inside a write; distinct by parameters",
     technique="round-trip PBT (rapid) + independent reference key schedule decrypting both wire directions",
     text="Accept recovers (tag, dc); bytes read equal bytes written in both directions; the header avoids the reserved patterns; the reference key schedule decrypts the header to the same tag/dc.",
     note="")
@@ -257,14 +257,14 @@ add("C05", "c_crypto",
 add("C06", "c_crypto",
     [T("TestC06", 100000, 1000000, env=P4), T("TestC06Lengths", 40, 400, env=P4), T("TestC06Bind", 200000, 2000000, env=P4)],
     pre=["TestRefSelfCheck"],
-    rule="uniform auth keys (random / leading zeros / constant bytes), msg keys, plaintexts of 0..200, 0..5000 and 2^k +- 40 bytes (k = 5..17), every length 0..4224 per case in TestC06Lengths, both sides; bind parameters (nonce, temp and perm key ids, session, expiry). non-trivial = every case; distinct by input hash",
+    rule="uniform auth keys (random / leading zeros / constant bytes), msg keys, plaintexts of 0..200, 0..5000 and 2^k +- 40 bytes (k = 5..17), every length 0..4224 per case in TestC06Lengths, both sides, with a drawn neighbour helper of the package (crypto.SHA256 over 1..3 chunks, TempAESKeys, NonceHash1) called between the derivations; bind parameters (nonce, temp and perm key ids, session, expiry). non-trivial = every case; distinct by input hash",
     technique="differential PBT (rapid) against reference KDFs written from the MTProto 2.0 / 1.0 specification",
     text="MessageKey/Keys/OldKeys/MessageKeyV1/KeysV1/Key.ID/AuxHash equal the reference; the bind message decrypts under the permanent key with the v1 KDF and the reference IGE to bind_auth_key_inner with the drawn fields, msg_key = SHA1(envelope)[4:20], padding < 16.",
     note="Documentation sample vectors are not available offline; anchoring is by OpenSSL IGE vectors and two-way agreement.")
 add("C11", "c_crypto",
     [T("TestC11", 400000, 3000000, env=P4)],
     pre=["TestC11Regression_nilNilOnHashMismatch", "TestC11Known"],
-    rule="(key, iv, ciphertext) in classes random, valid (every data length mod 16), valid with a flipped bit / truncated by a block / wrong key / wrong iv, length not a multiple of 16, short. non-trivial = block-aligned ciphertext > 20 bytes; distinct by case",
+    rule="(key, iv, ciphertext) in classes random, valid (every data length mod 16), valid with a flipped bit / truncated by a block / wrong key / wrong iv, length not a multiple of 16, short; data returned with a nil error is held while two further answers (one altered, one of zeros) are decrypted and compared again. non-trivial = block-aligned ciphertext > 20 bytes; distinct by case",
     technique="PBT (rapid) with an oracle over the reference IGE decryption",
     text="Result is (data, nil) with SHA1(data) equal to the first 20 bytes of the reference decryption and data a prefix of the rest within 15 bytes of its end, or (nil, err). (nil, nil) is a violation.",
     note="")
@@ -272,19 +272,19 @@ add("C13", "c_crypto",
     [T("TestC13Residue", 1, 1, rapid=False), T("TestC13GP", 1000, 20000, env=P4), T("TestC13DHSweep", 1, 1, rapid=False, env=P4, timeout_thorough=4800),
      T("TestC13DH", 60, 1000, env=P4, shards=8), T("TestC13Params", 20000, 300000, env=P4), T("TestC13PQ", 300, 4000, env=P4, shards=8),
      T("TestC10PQ", 3000, 30000, pkg="c_exchange")],
-    rule="(a) exhaustive: all 4492 safe primes 7 <= p < 2^20 x g in -1..9 against Euler's criterion (exhaustive:true for that sub-domain) + random 24..160-bit safe primes; (b) CheckDH over 13 known 2048-bit safe primes x g, and reject candidates (non-safe primes, composite 2r+1, 2047/2049-bit, RSA moduli, p+-2k, random odd); (c) CheckDHParams with g_a/g_b from 13 boundary values and random below/inside/above; (d) DecomposePQ over semiprimes from segmented-sieve windows up to sqrt(2^63) incl. p=q, twin and unbalanced factors, and non-semiprime input (primes, 0, 1). non-trivial = all (a), p != q (d); distinct by input",
+    rule="(a) exhaustive: all 4492 safe primes 7 <= p < 2^20 x g in -1..9 against Euler's criterion (exhaustive:true for that sub-domain) + random 24..160-bit safe primes; (b) CheckDH (in a third of the generated cases through a big.Int object that held an accepted prime and was overwritten in place) over 13 known 2048-bit safe primes x g, and reject candidates (non-safe primes, composite 2r+1, 2047/2049-bit, RSA moduli, p+-2k, random odd); (c) CheckDHParams with g_a/g_b from 13 boundary values and random below/inside/above; (d) DecomposePQ over semiprimes from segmented-sieve windows up to sqrt(2^63) incl. p=q, twin and unbalanced factors, and non-semiprime input (primes, 0, 1). non-trivial = all (a), p != q (d); distinct by input",
     technique="exhaustive enumeration of the residue sub-domain + PBT (rapid) against number-theoretic references (Euler's criterion, math/big primality, sieve)",
     text="CheckGP accepts iff g in 2..7 and g^((p-1)/2) = 1 mod p; CheckDH accepts iff p is a 2048-bit safe prime and g passes; CheckDHParams accepts iff strictly inside both ranges; DecomposePQ returns (p, q) ascending with p*q = pq.",
     note="Fresh 2048-bit safe primes cannot be generated per run (minutes each): 13 fixed ones are used on the accept side.")
 add("C14", "c_crypto",
     [T("TestC14Pad", 1200, 16000, env=P4, shards=8), T("TestC14Hashed", 1000, 16000, env=P4, shards=8), T("TestC14Lengths", 1, 1, rapid=False, env=P4)],
-    rule="data lengths 0..144 (RSA_PAD) / 0..235 (hashed) with every length forced once (TestC14Lengths) and over-limit lengths, random streams (the >= modulus retry occurs in ~30% of cases), three 2048-bit keys; mutated ciphertexts and foreign keys. non-trivial = data length within the limit; distinct by (length, seed, key)",
+    rule="data lengths 0..144 (RSA_PAD) / 0..235 (hashed) with every length forced once (TestC14Lengths) and over-limit lengths, random streams (the >= modulus retry occurs in ~30% of cases), three 2048-bit keys; mutated ciphertexts and foreign keys; returned plaintexts are compared again after the later calls of the case. non-trivial = data length within the limit; distinct by (length, seed, key)",
     technique="round-trip + cross-implementation PBT (rapid): reference RSA_PAD encoder and inverse written from the specification",
     text="The reference inverse accepts the impl's output and recovers data||padding; the reference encoder fed the impl's randomness reproduces the exact ciphertext; the impl decodes reference output; over-limit lengths refused; other key / flipped bit fail.",
     note="")
 add("C15", "c_crypto",
-    [T("TestC15", 40, 400, env=P4, shards=12), T("TestC15Invalid", 100, 1000, env=P4)],
-    rule="passwords and salts 0..64 bytes incl. non-UTF-8 and empty, client secret a of 256 bytes incl. leading zeros and tiny values, 13 safe-prime groups x valid g, B from the reference verifier or arbitrary 0<B<p; scenarios right password / wrong password / arbitrary B (>= 30% wrong); invalid groups. non-trivial = every case; distinct by inputs",
+    [T("TestC15", 40, 400, env=P4, shards=12), T("TestC15NewHash", 40, 400, env=P4, shards=12), T("TestC15Invalid", 100, 1000, env=P4)],
+    rule="(TestC15NewHash) salt1 handed over as a slice of a larger caller buffer (0..64 bytes behind it), NewHash 1..3 times, every (verifier, salt) pair re-checked at the end against the reference verifier; passwords and salts 0..64 bytes incl. non-UTF-8 and empty, client secret a of 256 bytes incl. leading zeros and tiny values, 13 safe-prime groups x valid g, B from the reference verifier or arbitrary 0<B<p; scenarios right password / wrong password / arbitrary B (>= 30% wrong); invalid groups. non-trivial = every case; distinct by inputs",
     technique="differential PBT (rapid) against a reference SRP client and verifier written from core.telegram.org/api/srp (own PBKDF2-HMAC-SHA512)",
     text="(A, M1) equals the reference client; the reference verifier accepts exactly when the right password was used; invalid groups make Hash fail.",
     note="~0.5 s per case (PBKDF2 100000 iterations x 2-3): small case counts in quick.")
